@@ -413,6 +413,12 @@ func structsEqual(x, y any) (err error) {
 			}
 		}
 
+		// unexported fields cannot be read through
+		// reflection; they are skipped, not fatal.
+		if xtf.PkgPath != `` || ytf.PkgPath != `` {
+			continue
+		}
+
 		err = valuesEqual(xvf.Interface(), yvf.Interface())
 	}
 
